@@ -3,10 +3,10 @@ VROOT=$(cd "$(dirname "$0")/.." && pwd)
 # try_seed.sh <prop> <worktree> <n> [tier] : run ./check <prop> against a scratch worktree with seed <n> applied
 # (VERIF_REPO mode: /repo and the committed evidence are not touched), then undo the patch in the worktree.
 prop=$1; wt=$2; n=$3; tier=${4:-quick}
-git -C "$wt" checkout -q -- . && rm -f "$wt/tests/seed_demo_verify.rs"
+git -C "$wt" checkout -q -- . ; git -C "$wt" clean -fdq -- src libs tests examples && rm -f "$wt/tests/seed_demo_verify.rs"
 git -C "$wt" apply "$wt/_seed/$n/patch.diff" || { echo "$prop seed $n: PATCH-DOES-NOT-APPLY"; exit 2; }
 out=$(cd $VROOT && VERIF_REPO="$wt" ./check $prop --tier $tier 2>&1); rc=$?
-git -C "$wt" checkout -q -- .
+git -C "$wt" checkout -q -- . ; git -C "$wt" clean -fdq -- src libs tests examples
 echo "$out" | grep -E '^(VIOLATION|OK|KNOWN|proof gate|correspondence|search)' | head -8
 if [ $rc -eq 0 ]; then echo "== $prop seed $n: MISSED"
 elif echo "$out" | grep -q '^VIOLATION.*replay=[^ ]*$'; then echo "== $prop seed $n: CAUGHT"
